@@ -469,7 +469,9 @@ async fn handle(env: Rc<Env>, programs: Rc<Vec<HandlerProgram>>, mut req: Reques
     if prog.fail {
         if let Some(e) = read_err {
             env.push(Event::Responded { handler: k, out_len: env.io.borrow().out.len(), failed: true, consumed: env.io.borrow().rpos });
-            return Err(e.into());
+            // what actix-web's `ResponseError for PayloadError` answers
+            let status = if matches!(e, actix_http::error::PayloadError::Overflow) { 413 } else { 400 };
+            return Ok(Response::build(StatusCode::from_u16(status).unwrap()).body(format!("{e}")).map_into_boxed_body());
         }
     }
     let mut rb = Response::build(StatusCode::from_u16(prog.status).unwrap());
